@@ -23,6 +23,16 @@ THEOREMS = {
         "theorems": ["Abnf.C08.request_transparent", "Abnf.C08.cache_transparent", "Abnf.C08.fresh_caches_sound",
                      "Abnf.lparseC_sand", "Abnf.lparse_mono", "Abnf.lruOps_sound'"],
     },
+    "C11": {
+        "modules": ["Abnf.Theorems.C11"],
+        "theorems": ["Abnf.C11.first_match", "Abnf.C11.first_match_none", "Abnf.C11.flag_off_union", "Abnf.C11.setFirst_top_only",
+                     "Abnf.C11.flag_last_write_wins", "Abnf.C11.exclusion"],
+    },
+    "C12": {
+        "modules": ["Abnf.Theorems.C12"],
+        "theorems": ["Abnf.C12.closed_grammar_only_parse_error", "Abnf.C12.undefined_rule_raises", "Abnf.C12.result_independent_of_fuel",
+                     "Abnf.C12.at_end_of_input", "Abnf.closed_noGerr", "Abnf.lparse_mono"],
+    },
     "C13": {
         "modules": ["Abnf.Theorems.C13"],
         "theorems": ["Abnf.C13.fresh_after_mutation", "Abnf.C13.genOk_reachable", "Abnf.linv_after_bump"],
